@@ -1,5 +1,6 @@
 import NomtModel.Store.StageGlueLeafStage
 import NomtModel.Store.StageGlueEnforce3
+import NomtModel.Store.StageGlueEnforceKeys
 import NomtModel.Store.StageGlueFilter
 import NomtModel.Store.LeafUpdRun3
 import NomtModel.Store.LeafUpdSep
@@ -150,6 +151,8 @@ structure LeafStageOK (lpn fresh : Nat → Nat) (a0 : Nat) (db : List (DbLeaf V)
   level : applyAll (lvlEnts (db.map fun l => (l.sep, lpn l.sep))) (chs o.changeset) =
     relabel0 (lvlEnts (lvlOf lpn fresh a0 o.level))
   allocs : o.allocs = a0 + (newsOf o.level).length
+  /-- every key of the changeset is a 256-bit key -/
+  keys_lt : ∀ c ∈ o.changeset, c.1 < 2 ^ 256
   /-- released: the pages of the overflow cells of old entries whose key is in the batch, then the pages of the old leaves
   that are not part of the new level -/
   freed : ∃ fl, o.freed = (LeafUpd.ovfLog (LeafUpd.flat db) (cs.map (·.1))).flatMap pagesOf ++ fl ∧
@@ -191,6 +194,38 @@ theorem dbOK_seps_asc {KB : Nat} : ∀ (db : List (DbLeaf V)), LeafUpd.DbOK KB d
       · exact Nat.le_refl _
       · have := i2 l hl b rfl
         omega
+
+theorem newAt_some {fresh : Nat → Nat} {k p : Nat} : ∀ {news : List (Leaf V)} {a : Nat}, newAt fresh a news k = some p →
+    ∃ l ∈ news, l.sep = k
+  | [], _, h => by cases h
+  | l :: t, a, h => by
+    unfold newAt at h
+    by_cases hk : l.sep = k
+    · exact ⟨l, by simp, hk⟩
+    · rw [if_neg hk] at h
+      obtain ⟨l', hl', e⟩ := newAt_some (news := t) h
+      exact ⟨l', by simp [hl'], e⟩
+
+theorem mem_write1_key {l : List (Entry V)} {k : Nat} {ch : Option (V × Bool)} {e : Entry V} (h : e ∈ write1 l k ch) :
+    e ∈ l ∨ e.key = k := by
+  unfold write1 at h
+  rcases List.mem_append.1 h with h | h
+  · exact Or.inl (List.mem_filter.1 h).1
+  · rcases List.mem_append.1 h with h | h
+    · cases ch with
+      | none => cases h
+      | some vo => obtain ⟨v, o⟩ := vo; simp at h; subst h; exact Or.inr rfl
+    · exact Or.inl (List.mem_filter.1 h).1
+
+theorem mem_applyAll_key : ∀ (cs : List (Nat × Option (V × Bool))) (l : List (Entry V)) (e : Entry V),
+    e ∈ applyAll l cs → e ∈ l ∨ ∃ c ∈ cs, c.1 = e.key
+  | [], _, _, h => Or.inl h
+  | c :: cs, l, e, h => by
+    rcases mem_applyAll_key cs (write1 l c.1 c.2) e h with h | ⟨c', hc', hk⟩
+    · rcases mem_write1_key h with h | h
+      · exact Or.inl h
+      · exact Or.inr ⟨c, by simp, h.symm⟩
+    · exact Or.inr ⟨c', by simp [hc'], hk⟩
 
 /-- the old tree as the leaf stage needs it -/
 structure LeafTreeOK (db : List (DbLeaf V)) : Prop where
@@ -353,7 +388,66 @@ theorem leafStage_spec (pagesOf : V → List Nat) (lpn fresh : Nat → Nat) (a0 
                   rfl
                 · have := (List.pairwise_cons.1 hcasc).1 c' hmem
                   omega
-    refine ⟨by rw [hcontent], by rw [erun, hlog], hoasc, hnews, holds, ⟨s, hs⟩, heasc, hlvl2, ?_, ?_⟩
+    -- every separator is a 256-bit key
+    have hkb := (LeafUpd.DbOK.sizeOK ht.ok).2
+    have hdbsep : ∀ l ∈ db, l.sep < 2 ^ 256 := by
+      intro l hl
+      obtain ⟨e, t, he⟩ := List.exists_cons_of_ne_nil (ht.nonempty l hl)
+      have hmem : e ∈ LeafUpd.flat db := List.mem_flatMap.2 ⟨l, hl, by rw [he]; simp⟩
+      have h1 := hkb e hmem
+      have key : ∀ (d : List (DbLeaf V)), LeafUpd.DbOK (2 ^ 256) d → ∀ l ∈ d, ∀ e ∈ l.ents, l.sep ≤ e.key := by
+        intro d
+        induction d with
+        | nil => intro _ l hl; cases hl
+        | cons y r ih =>
+          intro hd l hl e he
+          rcases List.mem_cons.1 hl with rfl | hl
+          · exact (LeafUpd.DbOK.head hd).2.2.2.1 e he
+          · exact ih (LeafUpd.DbOK.tail hd) l hl e he
+      have := key db ht.ok l hl e (by rw [he]; simp)
+      omega
+    have hnewsep : ∀ l, OutLeaf.new l ∈ out → l.sep < 2 ^ 256 := by
+      intro l hl
+      obtain ⟨hne, _, _, hlo, _⟩ := hnews l hl
+      obtain ⟨e, t, he⟩ := List.exists_cons_of_ne_nil hne
+      have h1 := hlo e (by rw [he]; simp)
+      have hmem : e ∈ LeafUpd.flatOut out := List.mem_flatMap.2 ⟨.new l, hl, by simp [OutLeaf.ents, he]⟩
+      rw [hcontent] at hmem
+      rcases mem_applyAll_key _ _ e hmem with h | ⟨c, hc, hk⟩
+      · have := hkb e h; omega
+      · have := LeafUpd.ChOK.keys_lt hcs c hc
+        omega
+    have hchkeys : ∀ c ∈ trackerChanges fresh tr.inner, c.1 < 2 ^ 256 := by
+      intro c hc
+      unfold trackerChanges at hc
+      obtain ⟨⟨k', e⟩, he, rfl⟩ := List.mem_map.1 hc
+      obtain ⟨hmem', hp⟩ := List.mem_filter.1 he
+      have hl := lookupE_of_mem hiasc hmem'
+      show k' < 2 ^ 256
+      cases hi : e.inserted with
+      | some y =>
+        have h1 : insV tr.inner k' = some y := by simp [insV, hl, hi]
+        have h2 := hinsV k'
+        rw [h1] at h2
+        obtain ⟨l, hl', hk⟩ := newAt_some h2.symm
+        have : OutLeaf.new l ∈ out := by rw [← hxo]; exact List.mem_append_left _ (mem_newsOf hl')
+        rw [← hk]; exact hnewsep l this
+      | none =>
+        have hd : e.deleted.isSome = true := by simpa [hi] using hp
+        have h1 : delV tr.inner k' = e.deleted := by simp [delV, hl]
+        rw [hdelV k'] at h1
+        split at h1
+        · rename_i hcond
+          obtain ⟨l, hl', hk⟩ := List.mem_map.1 hcond.1
+          rw [← hk]; exact hdbsep l hl'
+        · rw [← h1] at hd; cases hd
+    have hkeys : ∀ c ∈ enf, c.1 < 2 ^ 256 := by
+      intro c hc
+      rcases enforceFirst_keys false _ _ enf he c hc with ⟨c0, hc0, e⟩ | ⟨y, hy, e⟩
+      · rw [← e]; exact hchkeys c0 hc0
+      · obtain ⟨l, hl, rfl⟩ := List.mem_map.1 hy
+        rw [← e]; exact hdbsep l hl
+    refine ⟨by rw [hcontent], by rw [erun, hlog], hoasc, hnews, holds, ⟨s, hs⟩, heasc, hlvl2, ?_, hkeys, ?_⟩
     · show a0 + (newsOf x.r.out).length = a0 + (newsOf out).length
       rw [← hxo, newsOf_append, newsOf_old, List.append_nil]
     · refine ⟨trackerFreed tr.inner, ?_, ?_⟩
